@@ -570,6 +570,31 @@ def check_C15(ctx):
             continue
         f = sx.fields(o)
         work.append((i, f['dump'], f))
+    # (0) references are whatever the writer returns — also negative ones other than the empty reference -1: with a writer
+    # that returns the handle's own value as reference and a reader that resolves a reference to itself, every value comes
+    # back with the same handles, inside table entries as anywhere else
+    ncases = []
+    for i in tids:
+        for _ in range(12 if ctx.quick else 200):
+            v = nopgen.gen_value(pool.types[i], rng)
+            v = re.sub(r'\(hnd -?\d+\)', lambda m_: '(hnd %d)' % rng.choice([-2, -5, -128, -129, -(1 << 31) - 1, -(1 << 40), -(1 << 63), 0, 9, 1 << 33]), v)
+            ncases.append((i, v))
+    no_ = run_harness(pool, ['enc T%d %s' % c for c in ncases])
+    back = []
+    for (i, v), o in zip(ncases, no_):
+        if o.startswith(BADOUT):
+            continue
+        f = sx.fields(o)
+        if f.get('st') == '0':
+            back.append((i, f['dump'], f['bytes']))
+    bo_ = run_harness(pool, ['dec T%d %s -' % (i, b) for i, d, b in back])
+    for (i, d, b), o in zip(back, bo_):
+        line = 'dec T%d %s -' % (i, b)
+        ctx.count('identity-channel-any-reference', line)
+        f = sx.fields(o) if not o.startswith(BADOUT) else {}
+        if f.get('st') != '0' or not val_eq(f.get('val'), d):
+            ctx.violate('reference-not-resolved', 'a value whose handles travel under arbitrary references does not come back through a reader that resolves them: '
+                        'wrote %s as %s, read %s' % (d[:160], b[:80], o[:160]), {'type': type_desc(pool, i), 'value': d, 'bytes': b, 'output': o})
     # (a) table channel + call log on the implementation and on the model
     tl = ['tenc T%d %s' % (i, d) for i, d, _ in work]
     fl = ['fenc T%d - 0 %s' % (i, d) for i, d, _ in work]
